@@ -55,6 +55,9 @@ CATALOG['clone'] = lambda f, s, n: scenarios.ref_map(f, s, n, which='clone', nam
 for nm, lo, hi in (('hex.small', 0, 15), ('hex.medium', 16, 1024), ('hex.large', 1025, 4200)):
     CATALOG[nm] = (lambda nm, lo, hi: lambda f, s, n: scenarios.hex_arith(f, s, n, lo=lo, hi=hi, name=nm))(nm, lo, hi)
 
+CATALOG['zip.owned_ref'] = lambda f, s, n: scenarios.zip_mixed(f, s, n, which='owned_ref', name='zip.owned_ref')
+CATALOG['zip.ref_owned'] = lambda f, s, n: scenarios.zip_mixed(f, s, n, which='ref_owned', name='zip.ref_owned')
+
 if __name__ == '__main__':
     fns = mirsym.parse_mir(open(sys.argv[1]).read())
     src, nmax = sys.argv[2], int(sys.argv[3])
